@@ -307,6 +307,12 @@ pub fn render(conv: &Conversation) -> Rendered {
         match &rq.mal {
             Some(Malform::ReqLineFields(0)) => {}
             Some(Malform::ReqLineFields(1)) => line.extend_from_slice(rq.method.as_bytes()),
+            // two fields: method and target (2) or method and version, the target missing (3)
+            Some(Malform::ReqLineFields(3)) => {
+                line.extend_from_slice(rq.method.as_bytes());
+                line.push(b' ');
+                line.extend_from_slice(version.as_bytes());
+            }
             Some(Malform::ReqLineFields(_)) => {
                 line.extend_from_slice(rq.method.as_bytes());
                 line.push(b' ');
